@@ -2,6 +2,7 @@ package checks
 
 import (
 	"fmt"
+	"path/filepath"
 	"strings"
 
 	"verif.local/pvmon/internal/asm"
@@ -344,6 +345,9 @@ func runC16(ctx *h.Ctx) int {
 				switch {
 				case nx.IsData() && i > 0 && f.Lines[i-1].Kind == asm.KLabel && ix.textItem[f.Lines[i-1].Label] != 0:
 					id, what = ix.textItem[f.Lines[i-1].Label], "text"
+				case nx.IsData() && ix.textItem[curLabel] != 0 && strings.HasPrefix(nx.Op, ".") && nx.Op != ".2byte" && nx.Op != ".byte" && nx.Op != ".4byte" && nx.Op != ".align":
+					// a marker between the lines of one text block
+					id, what = ix.textItem[curLabel], "text-continuation"
 				case nx.Op == ".2byte" && ix.martItem[curLabel] != nil:
 					if posInBlock < len(ix.martItem[curLabel]) {
 						id, what = ix.martItem[curLabel][posInBlock], "mart-item"
@@ -419,7 +423,7 @@ func runC16(ctx *h.Ctx) int {
 			}
 			if id == 0 {
 				k.Count("marker:unclassified", 1)
-				k.C.Note("unclassified marker before %q", nx.Text)
+				k.C.Inconclusive("marker %q precedes %q, which the monitor cannot attribute to a source construct", l.Text, strings.TrimSpace(nx.Text))
 				continue
 			}
 			ok, rng := inRange(id, n)
@@ -432,9 +436,64 @@ func runC16(ctx *h.Ctx) int {
 		k.Nontrivial(nMarkers, pr.Lines, len(rp.Items))
 		k.Sample("markers", map[string]interface{}{"source": pr.Src, "path": path})
 	})
+	// (e) through the binary: source on standard input (no input path) with -lm at its default must give the
+	// -lm=false output, and with -i the marker lines must name that file
+	ctx.RunCases("cli-no-path", ctx.N(40, 800), func(k *h.Case) {
+		g := spec.NewGen(k.R, prof)
+		prog := g.FullProgram(1 + k.R.IntN(3))
+		pr := layoutOf(k, prog, 0.5)
+		k.SetSource(pr.Src)
+		o := optsOf(prog, k.R.IntN(2) == 0)
+		o.FontPath = filepath.Join(h.RepoDir, "font_config.json")
+		plain := h.Compile(pr.Src, o)
+		k.Count("evaluations", 1)
+		if !plain.OK() {
+			k.Count("rejected", 1)
+			return
+		}
+		dir := workDir(k)
+		defer cleanWork(dir)
+		o.LM = true
+		viaStdin := runCLIFull(dir, pr.Src, prog, o, true, k.R.IntN(2) == 0)
+		viaFile := runCLIFull(dir, pr.Src, prog, o, false, false)
+		k.Count("evaluations", 2)
+		if viaStdin.Err != nil || viaFile.Err != nil {
+			k.C.Inconclusive("cannot run the CLI: %v %v", viaStdin.Err, viaFile.Err)
+			return
+		}
+		if viaStdin.Exit != 0 || viaFile.Exit != 0 {
+			k.Violation("cli-accept-differs", fmt.Sprintf("the library compiles the program, the binary exits %d (stdin) / %d (-i): %s %s", viaStdin.Exit, viaFile.Exit, firstLineOf(viaStdin.Stderr), firstLineOf(viaFile.Stderr)), nil)
+			return
+		}
+		if viaStdin.Out != plain.Out {
+			k.Violation("cli-markers-without-path", "source given on standard input (no input path) with -lm=true: the output differs from the -lm=false output", map[string]interface{}{"stdin_lm": viaStdin.Out, "plain": plain.Out})
+			return
+		}
+		want := cliInputPath(dir)
+		nm := 0
+		var kept []string
+		for _, l := range strings.Split(viaFile.Out, "\n") {
+			if asmMarker(l) {
+				nm++
+				if !strings.HasSuffix(l, " \""+want+"\"") {
+					k.Violation("cli-marker-file", fmt.Sprintf("marker %q does not name the input file %q", l, want), map[string]interface{}{"with_markers": viaFile.Out})
+					return
+				}
+				continue
+			}
+			kept = append(kept, l)
+		}
+		if strings.Join(kept, "\n") != plain.Out {
+			k.Violation("cli-not-transparent", "binary, -i and -lm=true: removing the marker lines does not give the -lm=false output", map[string]interface{}{"with_markers": viaFile.Out, "plain": plain.Out})
+			return
+		}
+		k.Count("cli_markers_seen", int64(nm))
+		k.Count("cli_stdin_outputs_without_markers", 1)
+		k.Nontrivial("cli", nm, len(pr.Src)/32)
+	})
 	rejectGuard(ctx, 0.35)
 	return ctx.Finish(
-		"whole files with every construct kind under scrambled layouts (constructs spread over lines, comments/blank lines anywhere, raw keyword and back-tick on the same or different lines, CRLF), unique names per construct, input path with/without back-slashes or empty; compiled with -lm=false, -lm with path, -lm without path. Oracle: (a) -lm output minus marker lines == -lm=false output; (b) every marker names the escaped path and a line in 1..#lines; (c) the construct on the following line (command, label, flag/var/defeated/AutoVar operand, switch operand, case, mart item, movement step and headers, raw line, text block, map-script entry, table row), identified by its unique name or its position in its block, was written on a source line range containing that number; (d) no markers without a path. distinct = (number of markers, source lines, items)",
+		"whole files with every construct kind under scrambled layouts (constructs spread over lines, comments/blank lines anywhere, raw keyword and back-tick on the same or different lines, CRLF), unique names per construct, input path with/without back-slashes or empty; compiled with -lm=false, -lm with path, -lm without path. Oracle: (a) -lm output minus marker lines == -lm=false output; (b) every marker names the escaped path and a line in 1..#lines; (c) the construct on the following line (command, label, flag/var/defeated/AutoVar operand, switch operand, case, mart item, movement step and headers, raw line, text block, map-script entry, table row), identified by its unique name or its position in its block, was written on a source line range containing that number; (d) no markers without a path; (e) the same through the binary: source on standard input with -lm=true gives the -lm=false output, with -i every marker names that file and the rest is the -lm=false output. distinct = (number of markers, source lines, items)",
 		ctx.N(500, 5000),
 		[]string{"for multi-line constructs any line of the construct is accepted", "raw content never contains lines that look like markers"})
 }
